@@ -371,13 +371,25 @@ def _fmod(a, b):
     return z3.If(z3.And(b < 0, m != 0), m + b, m)
 
 
+MAX_DEGREE = 16
+
+
 class SymNum:
     """A Python int (z3 Int) or a Python float abstracted as a z3 Real."""
-    __slots__ = ("e", "isf")
+    __slots__ = ("e", "isf", "deg")
 
-    def __init__(self, e, isf=False):
+    def __init__(self, e, isf=False, deg=None):
         self.e = e
         self.isf = isf
+        # (an estimate of) the polynomial degree of the term in the inputs: products beyond MAX_DEGREE are not handed to the solver
+        # (its non-linear procedures do not honour time limits on such terms); the path is cut and reported as cut
+        self.deg = deg if deg is not None else (0 if (z3.is_int_value(e) or z3.is_rational_value(e)) else 1)
+
+    def _prod(self, o):
+        d = self.deg + o.deg
+        if d > MAX_DEGREE:
+            raise Abort("cut")
+        return d
 
     # -- helpers
     def _pair(self, o, forcef=False):
@@ -394,7 +406,7 @@ class SymNum:
     # -- arithmetic
     def __add__(self, o):
         if not self._num(o): return NotImplemented
-        a, b, f = self._pair(o); return SymNum(a + b, f)
+        a, b, f = self._pair(o); return SymNum(a + b, f, max(self.deg, lift(o).deg))
 
     def __radd__(self, o):
         if not self._num(o): return NotImplemented
@@ -402,7 +414,7 @@ class SymNum:
 
     def __sub__(self, o):
         if not self._num(o): return NotImplemented
-        a, b, f = self._pair(o); return SymNum(a - b, f)
+        a, b, f = self._pair(o); return SymNum(a - b, f, max(self.deg, lift(o).deg))
 
     def __rsub__(self, o):
         if not self._num(o): return NotImplemented
@@ -413,7 +425,7 @@ class SymNum:
             if isinstance(o, (list, tuple, str)):
                 return o * self.__index__()
             return NotImplemented
-        a, b, f = self._pair(o); return SymNum(a * b, f)
+        a, b, f = self._pair(o); return SymNum(a * b, f, self._prod(lift(o)))
 
     def __rmul__(self, o):
         if not self._num(o):
@@ -428,7 +440,7 @@ class SymNum:
         if _ENG.branch(o.e == 0):
             raise ZeroDivisionError("division by zero")
         a, b, _ = self._pair(o, True)
-        return SymNum(a / b, True)
+        return SymNum(a / b, True, self._prod(o))
 
     def __rtruediv__(self, o):
         if not self._num(o): return NotImplemented
@@ -441,8 +453,8 @@ class SymNum:
             raise ZeroDivisionError("integer division or modulo by zero")
         if self.isf or o.isf:
             a, b, _ = self._pair(o, True)
-            return SymNum(z3.ToReal(z3.ToInt(a / b)), True)
-        return SymNum(_fdiv(self.e, o.e), False)
+            return SymNum(z3.ToReal(z3.ToInt(a / b)), True, self._prod(o))
+        return SymNum(_fdiv(self.e, o.e), False, self._prod(o))
 
     def __rfloordiv__(self, o):
         if not self._num(o): return NotImplemented
@@ -455,8 +467,8 @@ class SymNum:
             raise ZeroDivisionError("integer modulo by zero")
         if self.isf or o.isf:
             a, b, _ = self._pair(o, True)
-            return SymNum(a - b * z3.ToReal(z3.ToInt(a / b)), True)
-        return SymNum(_fmod(self.e, o.e), False)
+            return SymNum(a - b * z3.ToReal(z3.ToInt(a / b)), True, self._prod(o))
+        return SymNum(_fmod(self.e, o.e), False, self._prod(o))
 
     def __rmod__(self, o):
         if not self._num(o): return NotImplemented
@@ -470,9 +482,9 @@ class SymNum:
         o = lift(o)
         return (o // self, o % self)
 
-    def __neg__(self): return SymNum(-self.e, self.isf)
+    def __neg__(self): return SymNum(-self.e, self.isf, self.deg)
     def __pos__(self): return self
-    def __abs__(self): return SymNum(z3.If(self.e < 0, -self.e, self.e), self.isf)
+    def __abs__(self): return SymNum(z3.If(self.e < 0, -self.e, self.e), self.isf, self.deg)
 
     # -- comparison
     def _cmp(self, o, f):
